@@ -3,6 +3,8 @@
 -/
 import Rsactor.Inv.End
 import Rsactor.Inv.Rej
+import Rsactor.Ties.timeout_wrappers_shape
+import Rsactor.Ties.blocking_dispatch_shape
 import Rsactor.Ties.reply_wait_shape
 import Rsactor.Ties.ask_join_shape
 import Rsactor.Ties.send_paths_shape
@@ -128,6 +130,8 @@ example : ∃ s, run? (init 1 {})
 
 
 /-! ### ties to the source: shape lemmas about the tables regenerated from /repo on every run -/
+-- @tie Rsactor.Ties.timeout_wrappers_shape
+-- @tie Rsactor.Ties.blocking_dispatch_shape
 -- @tie Rsactor.Ties.reply_wait_shape
 -- @tie Rsactor.Ties.ask_join_shape
 -- @tie Rsactor.Ties.send_paths_shape
